@@ -4,8 +4,8 @@ package gx
 
 import (
 	"fmt"
-	"os"
 	"hash/fnv"
+	"os"
 	"runtime"
 	"sort"
 	"strconv"
@@ -63,6 +63,8 @@ type Ctl struct {
 
 	// AutoRelease decides which gate sites are not decision points in this scenario.
 	AutoRelease func(site string) bool
+	// OnPark is called (on the parking goroutine) when a gate that is a decision point is reached.
+	OnPark func(site, label string)
 	// GateRank gives the default priority class of a parked gate (default 0).
 	GateRank func(site string) int
 	// Providers return further enabled actors (answers, application operations, ticks, closes).
@@ -79,6 +81,12 @@ type Ctl struct {
 	Horizon    time.Duration
 	MaxEnabled int
 	dead       bool
+
+	// HaltAfterPrefix (explicit-state search): stop at the first decision point after the prefix,
+	// recording the enabled entries as Frontier instead of choosing one.
+	HaltAfterPrefix bool
+	Halted          bool
+	Frontier        []string
 }
 
 func newCtl(prefix []Choice) *Ctl {
@@ -133,6 +141,9 @@ func (c *Ctl) Gate(site, topic string, n int32) {
 	p := &parked{label: label, site: site, ch: make(chan struct{})}
 	c.parked = append(c.parked, p)
 	c.mu.Unlock()
+	if c.OnPark != nil {
+		c.OnPark(site, label)
+	}
 	<-p.ch
 }
 
@@ -233,6 +244,9 @@ func (c *Ctl) Loop(done func() bool) {
 				// nothing can happen now: let fake time run so that every pending deadline,
 				// back-off or ticker expires (costs no wall-clock time)
 				idle++
+				if os.Getenv("VERIF_LOG") != "" {
+					fmt.Printf("[gx] nothing enabled after %d choices: horizon sleep %d\n", len(c.Choices), idle)
+				}
 				time.Sleep(c.Horizon)
 				continue
 			}
@@ -277,6 +291,12 @@ func (c *Ctl) Loop(done func() bool) {
 			h.Write([]byte(c.Digest()))
 			c.Fps = append(c.Fps, h.Sum64())
 		}
+		if c.HaltAfterPrefix && len(c.Choices) >= len(c.prefix) && len(labels) > 1 {
+			// forced moves (a single enabled entry) are followed without halting: they do not branch
+			c.Halted = true
+			c.Frontier = labels
+			return
+		}
 		idx := 0
 		pos := len(c.Choices)
 		if pos < len(c.prefix) {
@@ -285,6 +305,9 @@ func (c *Ctl) Loop(done func() bool) {
 				c.fail("replay diverged at decision %d: want [%d]%q, enabled %v; trace so far %v", pos, idx, c.prefix[pos].L, labels, c.Trace())
 				return
 			}
+		}
+		if os.Getenv("VERIF_LOG") != "" {
+			fmt.Printf("[gx] t=%s choose %q of %v\n", time.Now().Format("15:04:05.000"), labels[idx], labels)
 		}
 		c.Choices = append(c.Choices, Choice{idx, labels[idx]})
 		e := ents[idx]
